@@ -702,6 +702,14 @@ class Ev:
                 lo, hi, step = args[0], args[1], P.const(1)
             else:
                 lo, hi, step = args
+            if target.id.startswith("_dvl") and lo == P.const(0) and self.loops and self.loops[-1].kind == "range" and self.loops[-1].index is not None:
+                # a de-vectorised inner sum (sa/normalise.py DotToLoop) over N(m) entries inside a loop over m, with N(m) + m fixed: it runs over
+                # the absolute index l = m .. N(m) + m - 1 like the loop it was vectorised from
+                mi = self.loops[-1].index
+                from .poly import _mentions
+                if mi.as_atom() is not None and not _mentions(hi + mi, mi.as_atom()) and _mentions(hi, mi.as_atom()):
+                    self.env[target.id] = idx - mi
+                    return LoopInfo(k, st, "range", names, it, idx, mi, hi + mi, step)
             self.env[target.id] = idx
             return LoopInfo(k, st, "range", names, it, idx, lo, hi, step)
         if cname == "enumerate" and isinstance(target, ast.Tuple) and len(target.elts) == 2 \
